@@ -144,11 +144,19 @@ impl RFsmExpressionDatamodel {
                         // Pretty print the error
                         let msg = format!("Script Error:  {} => {} ", source, e);
                         error!("{}", msg);
+                        if handle_error {
+                            self.internal_error_execution();
+                        }
                         Err(msg)
                     }
                 }
             }
-            Err(err) => Err(err),
+            Err(err) => {
+                if handle_error {
+                    self.internal_error_execution();
+                }
+                Err(err)
+            }
         }
     }
 
@@ -581,7 +589,7 @@ impl Datamodel for RFsmExpressionDatamodel {
     ) -> bool {
         #[cfg(feature = "Debug")]
         debug!("ForEach: array: {}", array_expression);
-        let data = self.execute_internal(array_expression, false);
+        let data = self.execute_internal(array_expression, true);
         match data {
             Ok(r) => {
                 let dc = r.lock().unwrap().clone();
